@@ -843,6 +843,25 @@ fn c06_scenarios(tier: Tier) -> Vec<Scenario> {
         let sc = Scenario::new("torn-slot-failing-commits", Cfg::default(), vec![tx(vec![OpSpec::bucket("create", &[], "b"), OpSpec::put(&["b"], "k0", "w*300"), OpSpec::put(&["b"], "k1", "w*300")]), tx(vec![OpSpec::put(&["b"], "k2", "w*300")])], Box::new(alpha), if q { 3 } else { 4 }, or2);
         out.push(sc);
     }
+    // commits whose final sync fails (the error is reported; whichever state is visible, nothing else
+    // may have changed) while older readers are open: they keep their snapshots through the
+    // commits that follow
+    {
+        let mut alpha: Vec<Action> = vec![Action::OpenReader, Action::CloseReader(0), Action::CloseReader(1)];
+        for b in [&bodies[0], &bodies[1], &bodies[5]] {
+            alpha.push(Action::Tx { ops: b.clone(), commit: true });
+        }
+        for b in [&bodies[1], &bodies[5]] {
+            alpha.push(Action::TxFail { ops: b.clone(), call: 1001 });
+            alpha.push(Action::TxFail { ops: b.clone(), call: 4000 });
+        }
+        alpha.push(Action::Tx { ops: bodies[4].clone(), commit: false });
+        let or5 = Oracles { rets: true, dump_after: true, readers_frozen: true, fileck: true, dbcheck: true, ..Oracles::NONE };
+        let mut sc = Scenario::new("failed-commits-with-open-readers", Cfg { num_pages: 2000, ..Cfg::default() }, setup.clone(), Box::new(alpha), if q { 5 } else { 6 }, or5);
+        sc.max_readers = 2;
+        sc.poison_unmap = true;
+        out.push(sc);
+    }
     // calls that return an error inside transactions that are then committed, on a bucket that
     // spans several leaves (the refused call addresses another leaf than the real change): the
     // commit must write exactly what it writes without those calls
